@@ -51,9 +51,10 @@ def _gen_error_variants(error_id: str) -> List[str]:
     chunks = error_id.split('.')
     variants = [error_id]
     if len(chunks) > 1:
-        variants.append(chunks[-2])
         if len(chunks) > 2:
             variants.append('.'.join(chunks[2:]))
+        variants.append(chunks[-1])
+        variants.append(chunks[-2])
     return variants
 
 
